@@ -305,6 +305,14 @@ impl<'a, 'tcx> Ex<'a, 'tcx> {
                 }
                 o.put("fields", J::Arr(fs));
                 o.put("has_base", J::Bool(!matches!(adt.base, AdtExprBase::None)));
+                if let AdtExprBase::Base(fru) = &adt.base {
+                    // struct update syntax `S { f: x, ..base }`: the base expression and all field names in order
+                    o.put("base", self.expr(fru.base));
+                    o.put(
+                        "all_fields",
+                        J::Arr(v.fields.iter().map(|f| J::s(f.name.to_string())).collect()),
+                    );
+                }
                 o.put("ty", ty_j(tcx, e.ty));
                 o
             }
